@@ -217,9 +217,13 @@ def run_case(case):
             paths_in_epoch[i] = set()
         loaded[i] = True
         paths_in_epoch[i].add(kind)
-        if h.cached is not True:
+        try:
+            after = bool(h.cached)
+        except Exception as ex:
+            after = repr(ex)
+        if after is not True:
             res.div(at, 'cached-mismatch', f'handle {i}.cached after an '
-                    'access', True, h.cached)
+                    f'access ({case["handles"][i]["value"]})', True, after)
             return False
         if (len(paths_in_epoch[i]) >= 2
                 and case['handles'][i]['value'] in FALSY) or epochs[i] >= 2:
@@ -241,7 +245,7 @@ def run_case(case):
                 break
         elif kind == 'clear':
             do_clear(i)
-            if hs[i].cached is not False:
+            if bool(hs[i].cached) is not False:
                 res.div(at, 'cached-mismatch', f'handle {i}.cached after '
                         'clear()', False, hs[i].cached)
                 break
